@@ -73,9 +73,9 @@ open Acts.Ref in
 /-- **a step is reported completed only when everything started beneath it is done** (reference interpretation) -/
 theorem completed_iff_children_done (a : Answered) (i : String) (bs : List RBranch) (as : List RAct) :
     (statesStep a (.mk i true bs as)).head? = some (i, "completed") ↔
-      (doneBranches a (anyCondHolds bs) (termIds a bs) bs = true ∧ doneActs a as = true) := by
+      (doneBranches a (stepTaken bs as) (termIds a bs) bs = true ∧ doneActs a as = true) := by
   simp only [statesStep, Bool.not_true, Bool.false_eq_true, ↓reduceIte, List.head?_cons, Option.some.injEq, Prod.mk.injEq, true_and]
-  cases doneBranches a (anyCondHolds bs) (termIds a bs) bs <;> cases doneActs a as <;> simp
+  cases doneBranches a (stepTaken bs as) (termIds a bs) bs <;> cases doneActs a as <;> simp
 
 open Acts.Ref in
 /-- **when the process is finished nothing is waiting** (reference interpretation): no interrupt can be answered any more -/
